@@ -238,6 +238,9 @@ Definition changes (base : list fent) (t : list fent) : list change :=
 
 Definition c_banned (c : change) : bool :=
   match c_name c with Some n => banned n | None => false end.
+(* change.name[0] in BANNED_FILENAMES *)
+Definition c_old_banned (c : change) : bool :=
+  match c_old c with Some p => banned (last p []) | None => false end.
 
 Definition dirname (p : path) : path := removelast p.
 
@@ -252,8 +255,9 @@ Definition opt_list {A} (o : option A) : list A := match o with Some x => [x] | 
 
 (* dirty_dirs after the closure loop (as a list; duplicates harmless) *)
 Definition dirty_dirs (cs : list change) (um : umap) : list path :=
-  flat_map (fun c => if c_banned c then []
-                     else flat_map (fun p => prefixes (dirname p)) (opt_list (c_old c) ++ opt_list (c_new c))) cs
+  (* a change whose new name is banned is not exported, but (since 4f049bc) the directories it left
+     and entered are dirty all the same *)
+  flat_map (fun c => flat_map (fun p => prefixes (dirname p)) (opt_list (c_old c) ++ opt_list (c_new c))) cs
   ++ flat_map (fun pm => prefixes (dirname (fst pm))) um.
 
 (* ---- the incremental conversion ------------------------------------------- *)
@@ -312,7 +316,9 @@ Section Incremental.
                      end
               | 2 => [(p, Hb d,
                        match find_unchanged others (c_fid c) 2 d with
-                       | Some _ => false | None => c_cc c end)]
+                       | Some _ => false
+                       (* since 1182025: a symlink that used to have a banned name was never exported *)
+                       | None => c_cc c || c_old_banned c end)]
               | _ => []
               end
           end
@@ -495,7 +501,7 @@ Fixpoint run_native_aux (done : list ktree) (roots : list gobj) (h : hist) : lis
       let others := map flat (tl ptrees) in
       let cs := changes basef (flat t) in
       let cache := cache_of done in
-      (* the root tree the left-hand parent was actually exported with (it may be stale, see the refutation) *)
+      (* the root tree the left-hand parent was actually exported with *)
       let proot := match ps with p :: _ => Some (nth p roots (GTree [])) | [] => None end in
       let inc := incremental HbG HtG cache others cs [] proot t in
       OL [obs_g inc;
